@@ -50,6 +50,8 @@ class C07(Check):
     driver = "drv_c07"
     theorems = ["Pox.C07.sites_agree", "Pox.C07.sites_anchored", "Pox.C07.calllater_once", "Pox.C07.calllater_order",
                 "Pox.C07.sync_excludes", "Pox.C07.sync_mutual", "Pox.C07.schedule_atmost1_partial", "Pox.C07.schedule_self_twice", "Pox.C07.schedule_hub_race_defect", "Pox.C07.schedule_wake_kept",
+                "Pox.C07.schedule_st_never_lost", "Pox.C07.schedule_direct_kept", "Pox.C07.wake_never_lost", "Pox.C07.no_crash",
+                "Pox.C07.clt_alive", "Pox.C07.incoming_noticed_strict",
                 "Pox.C07.wake_noticed", "Pox.C07.incoming_noticed", "Pox.C07.hub_mode", "Pox.C07.lock_excl", "Pox.C07.lock_excl_multi", "Pox.C07.lock_handoff", "Pox.C07.lock_trylock", "Pox.C07.lock_waiters_exact",
                 "Pox.C07.lock_excl_needs_discipline"]
     anchors = []             # computed in setup(): the bodies of the functions listed in harness/translate/sites.py
@@ -1057,8 +1059,12 @@ class C07(Check):
                   "Event.wait/select with `ready` non-empty => flag set / pipe non-empty or some thread's next action sets/pings it; deque of "
                   "calls non-empty => CallLaterTask's pipe non-empty, or a ping is the next action of some thread, or the task is in its drain "
                   "loop); incoming_noticed (the hub's own _incoming queue non-empty => hub pipe non-empty, or the ping is the scheduler "
-                  "thread's next action, or the hub runner is in its drain loop — unless the runner died of its own assertion, which is only "
-                  "tested); hub_mode.  Call-later hand-over is modelled from foreign threads AND from cooperative code on the scheduler thread "
+                  "thread's next action, or the hub runner is in its drain loop — incoming_noticed_strict, using no_crash); no_crash (no "
+                  "thread of any class — scheduler, hub, foreign — dies of an assertion of fast_schedule/_select or of releasing an unlocked "
+                  "lock); clt_alive (the CallLaterTask is in exactly one place: ready / _incoming / hub table / being executed / being returned "
+                  "by the hub runner / one pending starter); schedule_st_never_lost (a ScheduleTask that has not run is in exactly one place; "
+                  "one that has run is nowhere), schedule_direct_kept, wake_never_lost (over histories: from the wake on the task is in ready, "
+                  "or its slice is starting, or it has run); these need namesOk (programs only name tasks that exist before the run); hub_mode.  Call-later hand-over is modelled from foreign threads AND from cooperative code on the scheduler thread "
                   "(calllater_once numbers each submitter's calls 0,1,2,… incl. tid 0).  About Model/CoopLock.lean, lock_excl_multi: the same "
                   "for any number of locks and tasks; and for one lock: for every operation sequence of any number of tasks that only release what they "
                   "were handed: lock_excl (believers = the holder, at most one; no waiter while free), lock_handoff (release wakes exactly the "
@@ -1096,7 +1102,11 @@ class C07(Check):
     assumptions = ["GIL: each modelled site (deque append/popleft/__contains__, attribute read/write, threading.Lock/Event operation, one-byte pipe "
                    "write / read) is atomic with respect to other threads",
                    "select returns every readable descriptor; os.read on the empty blocking pinger pipe blocks; pongAll drains up to 1024 bytes",
-                   "tasks handed to schedule() are not simultaneously parked in the select hub; a task does not schedule itself",
+                   "tasks handed to schedule() are not simultaneously parked in the select hub; a task does not schedule itself; programs "
+                   "only name tasks that exist before the run (namesOk: in the real code task references are objects, not numbers)",
+                   "'on the scheduler thread' in calllater_once holds in the model by construction (only the scheduler thread's step appends "
+                   "to `executed`); the tie is the trace validation, where every callback and task slice checks on the REAL code that "
+                   "threading.current_thread() is the OS thread Scheduler.run() was started on",
                    "cooperative Lock: a task only releases a lock it was handed (same contract as threading.Lock)",
                    "cooperative Lock: task objects are truthy — `if not self._locked` tests the holder task's truthiness; a Task subclass with "
                    "a falsy __len__/__bool__ breaks exclusion on the unrepaired code (checked on the real code; repair fixes/C07-2_lock_falsy_holder.diff)",
